@@ -85,6 +85,40 @@ func sameAssignment(a, b plainTable) string {
 
 func runC18(w *mon.W) {
 	idx := 0
+	// ---- cut-offs taken from an observed usage fraction: phenylalanine has TTT at p% and TTC at (100-p)% in both
+	// tables (totals 100, 1000 or 200), and the cut-off is p/100 as a floating-point number - for many p the product
+	// 10000*cutOff lies just below the whole number, the share itself is exact
+	for blk := 0; blk < 10; blk++ {
+		id := fmt.Sprintf("fraction-%d", blk)
+		idx++
+		if !w.Want(id, idx) {
+			continue
+		}
+		r := w.Rand(id)
+		w.Begin(id, fmt.Sprintf("cut-offs %d%%..%d%% equal to the share of TTT in both tables", blk*10+1, blk*10+10))
+		for pct := blk*10 + 1; pct <= blk*10+10 && pct < 100; pct++ {
+			t1, _ := randomFullTable(1, r)
+			t2, _ := randomFullTable(1, r)
+			for ti, t := range []*codon.Table{&t1, &t2} {
+				total := []int{100, 1000, 200}[(pct+ti)%3]
+				for ai := range t.AminoAcids {
+					if t.AminoAcids[ai].Letter != "F" {
+						continue
+					}
+					for ci := range t.AminoAcids[ai].Codons {
+						if t.AminoAcids[ai].Codons[ci].Triplet == "TTT" {
+							t.AminoAcids[ai].Codons[ci].Weight = total * pct / 100
+						} else {
+							t.AminoAcids[ai].Codons[ci].Weight = total - total*pct/100
+						}
+					}
+				}
+			}
+			w.Add("cutoffs_equal_to_a_shared_usage_fraction", 1)
+			c18Compromise(w, id, 1, t1, t2, snapshot(t1), snapshot(t2), float64(pct)/100, r)
+		}
+		w.End()
+	}
 	nPairs := w.Pick(100, 3000)
 	for _, tid := range tableIDs {
 		for k := 0; k < nPairs; k++ {
